@@ -74,6 +74,9 @@ func genWorld(r *sim.Rand) World {
 // Generate draws a plan for property prop.
 func Generate(prop string, r *sim.Rand, tier string) *sim.Plan {
 	cfg := CConfig{World: genWorld(r), Chains: r.Range(2, 3), Services: r.Range(1, 2), Users: 3, Profile: prop}
+	if prop == "C05" {
+		cfg.Chains, cfg.Services = 3, r.Range(1, 2) // children spread over one or several destination chains
+	}
 	nrep := 2
 	switch prop {
 	case "C01":
@@ -232,6 +235,21 @@ func (g *gen) cut() CStep { return CStep{Op: "cut"} }
 func (g *gen) step(prop string) []CStep {
 	r := g.r
 	switch prop {
+	case "C05":
+		switch r.Weighted([]int{3, 10, 10, 6, 1, 1}) {
+		case 0:
+			return []CStep{CStep{Op: "gopen", Group: r.Intn(3), A: r.Intn(8), B: r.Intn(8), N: r.Intn(3), T: []int64{0, 0, 2, 3, 5}[r.Intn(5)]}}
+		case 1:
+			return []CStep{CStep{Op: "gchild", Group: r.Intn(3), N: r.Intn(4)}}
+		case 2:
+			return []CStep{CStep{Op: "grecv", Group: r.Intn(3), N: r.Intn(4), Kind: []string{"ok", "ok", "ok", "fail", "rollback"}[r.Intn(5)]}}
+		case 3:
+			return []CStep{g.cut()}
+		case 4:
+			return []CStep{g.ibtp()}
+		default:
+			return []CStep{g.transfer()}
+		}
 	case "C08":
 		switch r.Weighted([]int{8, 8, 2, 4, 1, 1}) {
 		case 0:
@@ -298,6 +316,17 @@ func (g *gen) step(prop string) []CStep {
 			case 3:
 				if g.cfg.Relay > 0 {
 					return []CStep{g.relayIBTP()}
+				}
+			case 4:
+				if prop == "C01" {
+					return []CStep{CStep{Op: "gopen", Group: r.Intn(3), A: r.Intn(8), B: r.Intn(8), N: r.Intn(3), T: []int64{0, 2, 3}[r.Intn(3)]}}
+				}
+			case 5, 6:
+				if prop == "C01" {
+					if r.Chance(0.5) {
+						return []CStep{CStep{Op: "gchild", Group: r.Intn(3), N: r.Intn(4)}}
+					}
+					return []CStep{CStep{Op: "grecv", Group: r.Intn(3), N: r.Intn(4), Kind: []string{"ok", "ok", "fail", "rollback"}[r.Intn(4)]}}
 				}
 			}
 		}
